@@ -41,14 +41,15 @@
 
    ExtendedCopyGraph ([ext = true]): the outer syncutil.Go over the roots found by findRoots is a
    VIRTUAL SUPER-ROOT: [c_root c] is a node that is not content, whose successors are the roots
-   and whose phase is [Waiting] from the start (ExtendedCopyGraph's closure does region.End() and
+   and whose phase is [Waiting] from the start and for ever (events naming it are rejected;
+   ExtendedCopyGraph's closure does region.End() and
    calls copyGraph with the shared limiter and tracker for every root: exactly a parent that has
    dispatched its successors).  Success needs every root [Done].
    CopySpec's own view of the same fan-out ([c_xroots c]: further roots dispatched together with
    [c_root c], [ext = false]) is supported as well: the theorems hold for both views, and the
    model runner evaluates every recorded ExtendedCopyGraph trace under both and requires the
    same verdict. *)
-From Oras Require Import Base.Prelude Model.CopySpec.
+From Oras Require Import Base.Prelude Model.CopySpec Model.CopyOpt.
 Local Open Scope nat_scope.
 
 Inductive fevent :=
@@ -99,6 +100,10 @@ Definition with_base (fs : fstate) (st : state) : fstate :=
 Definition remove_node (n : node) (l : list node) : list node :=
   filter (fun m => negb (Nat.eqb m n)) l.
 
+(* ExtendedCopyGraph: the virtual super-root is not content -- no operation or callback ever names it *)
+Definition on_virtual (c : cfg) (ext : bool) (e : event) : bool :=
+  ext && match ev_node e with Some n => Nat.eqb n (c_root c) | None => false end.
+
 Definition fstep (g : graph) (c : cfg) (ext : bool) (fs : fstate) (fe : fevent) : option fstate :=
   let st := fb fs in
   match returned st with
@@ -126,7 +131,7 @@ Definition fstep (g : graph) (c : cfg) (ext : bool) (fs : fstate) (fe : fevent) 
             else None
         | None =>
             match step g c st e with
-            | Some st' => Some (with_base fs st')
+            | Some st' => if on_virtual c ext e then None else Some (with_base fs st')
             | None => None
             end
         end
